@@ -210,6 +210,13 @@ class Ctx:
             raise Infra("TLC timeout on %s/%s after %ss" % (module, cfg, timeout))
         if "OutOfMemoryError" in out or "StackOverflowError" in out:
             raise Infra("TLC resource error on %s/%s:\n%s" % (module, cfg, out[-2000:]))
+        if "Parsing or semantic analysis failed" in out:
+            seen, uniq = set(), []
+            for ln in out.splitlines():
+                if ln.strip() and ln not in seen and not ln.startswith(("Parsing file", "Semantic processing", "Linting")):
+                    seen.add(ln)
+                    uniq.append(ln)
+            raise Infra("TLC parse/semantic error in %s:\n%s" % (module, "\n".join(uniq[:60])))
         if not r["noerror"] and not r["violated"] and not simulate:
             raise Infra("TLC did not finish normally on %s/%s (rc=%d):\n%s" % (module, cfg, p.returncode, out[-5000:]))
         if simulate and p.returncode not in (0,) and not r["violated"]:
